@@ -187,6 +187,11 @@ theorem spec_mono (senv : SEnv) : ∀ f : Nat,
           · rename_i hr; rw [if_neg hr]
             obtain ⟨a, ha, hc⟩ := map_some_inv h
             rw [ihC _ _ _ ha]; simpa using hc
+      | highloadDict =>
+        simp only [specChunk] at h ⊢
+        split at h
+        · exact ihC _ _ _ h
+        · cases h
       | hashmapE n sk st =>
         simp only [specChunk] at h ⊢
         exact specDict_mono n _ _ _ _ v c (fun x c hx => ihC _ _ _ hx) (fun x c hx => ihC _ _ _ hx) h
@@ -1145,6 +1150,24 @@ theorem mapM_to_opt {α β} (f : α → Outcome β) (g : α → Option β) : ∀
       (fun a' ha' b' hb' => hon a' (List.mem_cons_of_mem _ ha') b' (List.mem_cons_of_mem _ hb')) hbs
     simp only [mapMOpt, h1, h2]
 
+/-- wallet.PayloadHighload -/
+theorem agree_highload {f k : Nat} (h : SInv env senv f) {S v b b'}
+    (ha : agreeb env senv (k + 1) .highload S = true)
+    (hd : inDom env (f + 1) .highload v = true) (he : encode env (f + 1) .highload v b = .ok b') :
+    SpecOK senv S v b b' := by
+  cases S <;> simp only [agreeb, Bool.false_eq_true] at ha
+  simp only [inDom, Bool.and_eq_true, decide_eq_true_eq] at hd
+  obtain ⟨⟨hlen, _⟩, hd⟩ := hd
+  simp only [encode, if_neg (by omega : ¬ Prim.valLen v > 254)] at he
+  cases hdv : hlToDict v with
+  | none => simp [hdv] at hd
+  | some d =>
+    simp only [hdv] at hd he
+    have hag : agreeb env senv 2 (.dictE (.uint 16) (.prim .any)) (.hashmapE 16 (.nat 16) .any) = true := by
+      simp [agreeb, agreePrim, keyWidth]
+    obtain ⟨g, c, hc, hb⟩ := h.enc 2 _ _ d b b' hag hd he
+    exact ⟨g + 1, c, by simp only [specChunk, hdv, hc], hb⟩
+
 /-- a reference chain (wallet.W5ExtendedActions) -/
 theorem agree_chain {f k : Nat} (h : SInv env senv f) {e S v b b'}
     (ha : agreeb env senv (k + 1) (.chain e) S = true)
@@ -1291,6 +1314,7 @@ theorem SInv.succ {f : Nat} (h : SInv env senv f) : SInv env senv (f + 1) := by
     | dictE kt t => exact agree_dictE h ha hd he
     | dict kt t => simp [agreeb] at ha
     | chain e => exact agree_chain h ha hd he
+    | highload => exact agree_highload h ha hd he
     | cell => simp [agreeb] at ha
     | magic t => simp [agreeb] at ha
     | vmStack e => simp [agreeb] at ha
